@@ -106,6 +106,25 @@ use std::time::Instant;
 static WATCH: Mutex<Vec<(u64, Instant, String)>> = Mutex::new(Vec::new());
 static WATCH_ID: std::sync::atomic::AtomicU64 = std::sync::atomic::AtomicU64::new(1);
 
+/// calls of the code under test that were abandoned after a time limit (run in a sacrificial thread)
+pub static ABANDONED: std::sync::atomic::AtomicU64 = std::sync::atomic::AtomicU64::new(0);
+
+/// Run `f` in a sacrificial thread; `None` if it does not return within `secs` (the thread is left
+/// behind; the run ends as INCONCLUSIVE unless a real violation is found elsewhere).
+pub fn with_time_limit<T: Send + 'static>(secs: u64, f: impl FnOnce() -> T + Send + 'static) -> Option<T> {
+    let (tx, rx) = std::sync::mpsc::channel();
+    let _ = std::thread::spawn(move || {
+        let _ = tx.send(f());
+    });
+    match rx.recv_timeout(std::time::Duration::from_secs(secs)) {
+        Ok(v) => Some(v),
+        Err(_) => {
+            let _ = ABANDONED.fetch_add(1, std::sync::atomic::Ordering::Relaxed);
+            None
+        }
+    }
+}
+
 pub struct WatchGuard(u64);
 
 pub fn watch(describe: impl FnOnce() -> String) -> WatchGuard {
